@@ -104,7 +104,7 @@ func ruleL1(c *Ctx, id string) {
 					return false, false
 				}
 				oc, ok := cd.X.(*ssa.Call)
-				if !ok || oc.Call.StaticCallee() != V.OwnInum {
+				if !ok || staticCallee(oc) != V.OwnInum {
 					return false, false
 				}
 				if other := stripConv(argN(oc, 0)); other != num {
@@ -142,7 +142,7 @@ func classifyNested(c *Ctx, in ssa.Instruction) (string, string) {
 	if cal == V.AllocInode {
 		ok := false
 		for _, call := range c.P.CallsIn(V.AllocInode, funcIs(V.GetInodeLocked)) {
-			if a, isC := stripConv(argN(call, 0)).(*ssa.Call); isC && a.Call.StaticCallee() == V.AllocINum {
+			if a, isC := stripConv(argN(call, 0)).(*ssa.Call); isC && staticCallee(a) == V.AllocINum {
 				ok = true
 			} else {
 				ok = false
@@ -176,7 +176,7 @@ func classifyNested(c *Ctx, in ssa.Instruction) (string, string) {
 	for _, b := range fn.Blocks {
 		for _, i2 := range b.Instrs {
 			if call, ok := i2.(*ssa.Call); ok && i2 != in {
-				if cal2 := call.Call.StaticCallee(); cal2 != nil && V.Acquirers[cal2] && sameTxnValue(recvOf(call), txn) && reachableFrom(call, in) {
+				if cal2 := staticCallee(call); cal2 != nil && V.Acquirers[cal2] && sameTxnValue(recvOf(call), txn) && reachableFrom(call, in) {
 					helds = append(helds, call)
 				}
 			}
@@ -273,7 +273,7 @@ func sortedLoopRule(c *Ctx, id string) {
 	for _, b := range f.Blocks {
 		for _, in := range b.Instrs {
 			if call, ok := in.(*ssa.Call); ok {
-				if cal := call.Call.StaticCallee(); cal != nil && cal.Name() == "Slice" && funcPkg(cal) != nil && funcPkg(cal).Path() == "sort" {
+				if cal := staticCallee(call); cal != nil && cal.Name() == "Slice" && funcPkg(cal) != nil && funcPkg(cal).Path() == "sort" {
 					sortCall = call
 				}
 			}
@@ -429,7 +429,7 @@ func sortedLoopRule(c *Ctx, id string) {
 			if cd.Op != token.ILLEGAL {
 				return false, false
 			}
-			if call, ok := cd.X.(*ssa.Call); ok && call.Call.StaticCallee() == V.OwnInum {
+			if call, ok := cd.X.(*ssa.Call); ok && staticCallee(call) == V.OwnInum {
 				return true, false
 			}
 			return false, false
@@ -503,7 +503,7 @@ func ruleL4(c *Ctx, id string) {
 				deferred := false
 				for _, b2 := range fn.Blocks {
 					for _, x := range b2.Instrs {
-						if d, ok := x.(*ssa.Defer); ok && isMutexMethod(d.Call.StaticCallee(), "Unlock") {
+						if d, ok := x.(*ssa.Defer); ok && isMutexMethod(staticCallee(d), "Unlock") {
 							deferred = true
 						}
 					}
@@ -686,7 +686,7 @@ func soleAcquisition(c *Ctx, in ssa.Instruction) bool {
 				if ssa.Instruction(x) == in {
 					continue
 				}
-				cal := x.Call.StaticCallee()
+				cal := staticCallee(x)
 				if cal == nil || V.Terminators[cal] == "" {
 					return false
 				}
@@ -721,7 +721,7 @@ func ruleL10(c *Ctx, id string) {
 	fromLookup := func(v ssa.Value) *ssa.Call {
 		for src := range bwdSources(v) {
 			if ex, ok := src.(*ssa.Extract); ok && ex.Index == 0 {
-				if cl, ok := ex.Tuple.(*ssa.Call); ok && cl.Call.StaticCallee() == lookup {
+				if cl, ok := ex.Tuple.(*ssa.Call); ok && staticCallee(cl) == lookup {
 					return cl
 				}
 			}
@@ -747,7 +747,7 @@ func ruleL10(c *Ctx, id string) {
 					if !ok {
 						continue
 					}
-					cal := call.Call.StaticCallee()
+					cal := staticCallee(call)
 					if cal == nil || !(cal == lockIn || (lookupOrd != nil && cal == lookupOrd) || V.Acquirers[cal]) {
 						continue
 					}
@@ -790,7 +790,7 @@ func ruleL10(c *Ctx, id string) {
 									}
 								}
 								// built by a helper from its integer arguments (twoInums(a, b))
-								if hc, isC := src.(*ssa.Call); isC && hc.Call.StaticCallee() != nil && isPrivateHelper(hc.Call.StaticCallee()) {
+								if hc, isC := src.(*ssa.Call); isC && staticCallee(hc) != nil && isPrivateHelper(staticCallee(hc)) {
 									for _, ha := range hc.Call.Args {
 										if isInt(ha) {
 											nums = append(nums, sc.S.resolve(stripConv(ha)))
